@@ -825,6 +825,11 @@ var writerClauses = map[int]string{
 	83: "a released buffer was touched, or a different buffer was returned",
 	84: "WriteControl touched the pool, or WritePreparedMessage took a buffer",
 	85: "a pool buffer is held although no message is in progress",
+	160: "a write call reported success after a close frame had been sent",
+	161: "a valid write request after a close frame did not fail with ErrCloseSent",
+	162: "NextWriter succeeded after a close frame had been sent",
+	163: "a message writer opened before the close frame reported its message as sent",
+	164: "bytes were written to the transport after a close frame",
 	98: "model oracle ran short (harness/model bug)",
 }
 
@@ -846,6 +851,101 @@ func c02Gen(rng *rand.Rand, tier string) []core.Spec {
 		sp := &WriterSpec{Prop: 2, Server: rng.Intn(2) == 0, WBuf: wbuf, Pooled: rng.Intn(2) == 0, Negotiated: negotiated, FailAt: -1, Hook: i%16 == 0}
 		sp.Ops = genWriteProgram(rng, wbuf, negotiated, 1+rng.Intn(5), maxLen, true, 8)
 		out = append(out, sp)
+	}
+	// single frames whose payload sits on a length-encoding boundary (125/126, 65535/65536): by the
+	// server's direct path (WriteMessage, one large Write) and by a write buffer that holds exactly
+	// that many payload bytes
+	for _, n := range []int{125, 126, 127, 65534, 65535, 65536, 65537} {
+		data := genWPayload(rng, n)
+		for _, server := range []bool{true, false} {
+			out = append(out, &WriterSpec{Prop: 2, Server: server, WBuf: 4096, FailAt: -1, Note: "length-boundary",
+				Ops: []WOp{{K: 0, Ty: 2, Data: data}, {K: 1, Ty: 1}, {K: 2, Data: data}, {K: 5}}})
+			out = append(out, &WriterSpec{Prop: 2, Server: server, WBuf: n + 14, FailAt: -1, Note: "length-boundary",
+				Ops: []WOp{{K: 1, Ty: 2}, {K: 2, Data: append(append([]byte{}, data...), 7, 7, 7)}, {K: 5}, {K: 0, Ty: 1, Data: data}}})
+		}
+	}
+	return out
+}
+
+// C09 (sequential half): a close frame sent at some step by each path, with or without a message
+// writer open, then more calls of every kind
+func c09wGen(rng *rand.Rand, tier string) []core.Spec {
+	n := 40
+	if tier == "thorough" {
+		n = 1500
+	}
+	var out []core.Spec
+	closeBody := B("\x03\xe8bye")
+	for i := 0; i < n; i++ {
+		for path := 0; path < 4; path++ {
+			for open := 0; open < 3; open++ {
+				wbuf := core.Pick(rng, wbufChoices)
+				negotiated := rng.Intn(4) == 0
+				sp := &WriterSpec{Prop: 21, Server: rng.Intn(2) == 0, WBuf: wbuf, Pooled: rng.Intn(2) == 0, Negotiated: negotiated, FailAt: -1}
+				pid := 100
+				var ops []WOp
+				if rng.Intn(2) == 0 {
+					ops = append(ops, genMessageOps(rng, wbuf, 600, negotiated, true, &pid)...)
+					if k := ops[len(ops)-1].K; k != 0 && k != 5 && k != 10 {
+						ops = append(ops, WOp{K: 5})
+					}
+				}
+				// a message writer opened before the close: empty, with buffered bytes, or with a frame already flushed
+				ew := wbuf
+				if ew == 0 {
+					ew = 4096
+				}
+				if ew < 125 {
+					ew = 125
+				}
+				switch open {
+				case 1:
+					ops = append(ops, WOp{K: 1, Ty: 1 + rng.Intn(2)}, WOp{K: 2, Data: genWPayload(rng, rng.Intn(20))})
+				case 2:
+					ops = append(ops, WOp{K: 1, Ty: 1 + rng.Intn(2)}, WOp{K: 2, Data: genWPayload(rng, ew+1+rng.Intn(50))})
+				}
+				switch path {
+				case 0:
+					ops = append(ops, WOp{K: 6, Ty: 8, Data: closeBody, DL: core.Pick(rng, []int{0, 2})})
+				case 1:
+					ops = append(ops, WOp{K: 0, Ty: 8, Data: closeBody})
+				case 2:
+					ops = append(ops, WOp{K: 1, Ty: 8}, WOp{K: 2, Data: closeBody}, WOp{K: 5})
+				default:
+					pid++
+					ops = append(ops, WOp{K: 10, Ty: 8, Data: closeBody, PID: pid})
+				}
+				if open != 0 && path == 0 {
+					// the writer opened before the close: more bytes, then its Close
+					if rng.Intn(2) == 0 {
+						ops = append(ops, WOp{K: 2, Data: genWPayload(rng, core.Pick(rng, []int{0, 3, ew + 5}))})
+					}
+					ops = append(ops, WOp{K: 5})
+				}
+				// afterwards: every kind of call
+				for j, m := 0, 2+rng.Intn(5); j < m; j++ {
+					switch rng.Intn(7) {
+					case 0:
+						ops = append(ops, WOp{K: 0, Ty: 1 + rng.Intn(2), Data: genWPayload(rng, genWLen(rng, wbuf, 600))})
+					case 1:
+						ops = append(ops, genCtlOp(rng, true))
+					case 2:
+						pid++
+						ops = append(ops, WOp{K: 10, Ty: core.Pick(rng, []int{1, 2, 8, 9}), Data: genWPayload(rng, rng.Intn(100)), PID: pid})
+					case 3:
+						ops = append(ops, WOp{K: 1, Ty: core.Pick(rng, []int{1, 2, 9, 8})}, WOp{K: 2, Data: genWPayload(rng, rng.Intn(100))}, WOp{K: 5})
+					case 4:
+						ops = append(ops, WOp{K: 0, Ty: core.Pick(rng, []int{8, 9, 10}), Data: genWPayload(rng, rng.Intn(100))})
+					case 5:
+						ops = append(ops, WOp{K: 0, Ty: core.Pick(rng, []int{0, 3, 11}), Data: B("z")})
+					default:
+						ops = append(ops, WOp{K: 7, DL: core.Pick(rng, []int{0, 2, 3})})
+					}
+				}
+				sp.Ops = ops
+				out = append(out, sp)
+			}
+		}
 	}
 	return out
 }
@@ -965,5 +1065,6 @@ func regWriter(id, rule string, gen func(*rand.Rand, string) []core.Spec) {
 func init() {
 	regWriter("C02", "write programs of 1-5 messages by every API route (WriteMessage | NextWriter + Write/WriteString/ReadFrom splits + Close or implicit close | WritePreparedMessage), payload lengths from the boundary set (0,1,125,126,65535,65536, k*wbuf+-1, 2*wbuf(+1), 2*(wbuf+14)+-1) and random, interleaved WriteControl, compression toggles and level changes, invalid requests, occasional close by each path; both roles, WriteBufferSize {1,2,16,125,126,1024,4096,default}, pool on/off, compression negotiated or not; 1 in 16 cases with the mask source swapped for a counter; non-trivial = something reached the transport", c02Gen)
 	regWriter("C10", "for each generated write program, the fault-free run and one run per (k, kind): the k-th transport operation (SetWriteDeadline or Write) fails with {error, timeout, short write of 0/1/5/len-1 bytes + error}; programs contain invalid requests at random positions and deadlines {zero, t2, t3, t4}", c10Gen)
+	regWriter("C09w", "write programs in which a close frame is sent by each of the four paths (WriteControl | WriteMessage | NextWriter+Write+Close | WritePreparedMessage), with no writer open, a writer holding buffered bytes, or a writer that has already flushed a frame; then the open writer's Write/Close and 2-6 further calls of every kind (data messages by every route, control messages by both routes, prepared messages incl. closes, invalid requests)", c09wGen)
 	regWriter("C20", "write programs as in C02 (incl. invalid requests, abandoned writers, closes) on connections with an instrumented BufferPool that identifies buffers, poisons released ones and checks the poison on reuse and at the end; one third with a transport fault at a random operation", c20Gen)
 }
